@@ -36,6 +36,8 @@ def chunks(tier, seed):
     n5 = 100 if tier == 'quick' else 2000
     for k in range(0, n5, 20):
         out.append(('case_sampled', [dict(seed=seed * 97 + k, count=20, nvars=4 + (k // 20) % 2)]))
+    for k in range(3 if tier == 'quick' else 30):
+        out.append(('case_many_variables', [dict(seed=seed * 31 + k, count=20)]))
     return out
 
 
@@ -167,5 +169,37 @@ def case_sampled(c, res):
         check_function(m if i % 2 else b, b, names, u, t, res, auto=bool(i % 2))
         b.decref(u)
         keys.append((t, tuple(o)))
+    res.evals += c['count'] - 1
+    return keys
+
+
+def case_many_variables(c, res):
+    """10-14 declared variables; the functions depend on 2-4 of them at scattered levels (both small and >= 8)"""
+    import dd.autoref as A
+    rnd = random.Random(c['seed'])
+    nv = rnd.randint(10, 14)
+    allv = [f'v{k}' for k in range(nv)]
+    o = allv[:]
+    rnd.shuffle(o)
+    m = A.BDD({nm: k for k, nm in enumerate(o)})
+    b = m._bdd
+    keys = []
+    for i in range(c['count']):
+        k = rnd.randint(2, 4)
+        lv = sorted(rnd.sample(range(nv), k))
+        if lv[-1] < 8:
+            lv[-1] = rnd.randint(8, nv - 1)
+        names = sorted({o[l] for l in lv})
+        n = len(names)
+        t = rnd.getrandbits(1 << n)
+        u = build(b, t, names)
+        b.incref(u)
+        # judge over the small universe `names` plus one name outside the support
+        spare = next(x for x in allv if x not in names)
+        uni = names + [spare]
+        tl = t | (t << (1 << n))
+        check_function(m if i % 2 else b, b, uni, u, tl, res, auto=bool(i % 2))
+        b.decref(u)
+        keys.append((tuple(lv), t))
     res.evals += c['count'] - 1
     return keys
